@@ -144,11 +144,11 @@ PLANS["C14"] = {
     "rule": ("family 'basis' with files=1: for every LP and every valid basis, mpq_QSwrite_basis(p,B,f) then mpq_QSread_basis / mpq_QSread_and_load_basis must give the same basic set "
              "and at-upper set (non-basic free <-> at-lower tolerated) and the same exact basic solution; family 'hist': mpq_QSwrite_basis(p,NULL,f) appears as an operation inside "
              "every history, followed by every other operation, and the basis must still be there"),
-    "quick": [fam("basisfile-S1q", "prod", "basis", {"fam": "S1q", "files": 1, "verify": 0}, weight=2, crash_props=["C17", "C14"]),
+    "quick": [hist("hist-sb3", "prod", 3, weight=1, crash_props=["C17", "C14"], opts={"depth": 3, "reduced": 0, "sandwich": 2}), hist("hist-d2-prod", "prod", 2, weight=1, crash_props=["C17", "C14"]), fam("basisfile-S1q", "prod", "basis", {"fam": "S1q", "files": 1, "verify": 0}, weight=2, crash_props=["C17", "C14"]),
               fam("basisfile-S0q1", "prod", "basis", {"fam": "S0q1", "files": 1, "verify": 0}, weight=2, crash_props=["C17", "C14"]),
               fam("basisfile-Sbq", "prod", "basis", {"fam": "Sbq", "files": 1, "verify": 0}, weight=2, crash_props=["C17", "C14"]),
               hist("hist-d2-san", "san", 2, weight=3), hist("hist-d3r-prod", "prod", 3, reduced=1, weight=3)],
-    "thorough": [fam("basisfile-S0c", "prod", "basis", {"fam": "S0c", "files": 1, "verify": 0}, weight=6, crash_props=["C17", "C14"]),
+    "thorough": [hist("hist-sb3", "prod", 3, weight=1, crash_props=["C17", "C14"], opts={"depth": 3, "reduced": 0, "sandwich": 2}), hist("hist-sb4", "prod", 4, weight=4, crash_props=["C17", "C14"], opts={"depth": 4, "reduced": 0, "sandwich": 2}), fam("basisfile-S0c", "prod", "basis", {"fam": "S0c", "files": 1, "verify": 0}, weight=6, crash_props=["C17", "C14"]),
                  fam("basisfile-S1r", "prod", "basis", {"fam": "S1r", "files": 1, "verify": 0}, weight=6, crash_props=["C17", "C14"]),
                  hist("hist-d3-prod", "prod", 3, weight=10)],
     "bounds": {"quick": "all bases of S0q1 and S1q; histories of depth 2 (full alphabet) and 3 (reduced alphabet) containing write_basis", "thorough": "all bases of S0c and S1r; depth-3 histories over the full alphabet"},
@@ -552,3 +552,6 @@ for _pid in ("C01", "C02"):
     PLANS[_pid]["thorough"] = PLANS[_pid]["thorough"] + [_SW3P, hist("hist-sw4-prod", "prod", 4, weight=4, crash_props=["C17", "C01", "C02"], opts={"depth": 4, "reduced": 0, "sandwich": 1})]
     PLANS[_pid]["rule"] = PLANS[_pid]["rule"] + "; family hist with sandwich=1: start problem ; solve ; any of the 66 operations ; solve - the certificate oracle is applied to the answers served after the last call (cached or re-solved)"
     PLANS[_pid]["evidence"] = {"states": ["instances", "histories"], "transitions": ["executions", "api_transitions"], "nontrivial": ["instances_nontrivial", "histories"]}
+
+PLANS["C14"]["rule"] += ("; family hist: every write_basis step inside a history reads the file back and compares it with the basis mpq_QSget_basis reports (histories of depth 2, and solve ; any operation ; write_basis)")
+PLANS["C14"]["evidence"] = {"states": PLANS["C14"]["evidence"]["states"] + ["histories"], "transitions": PLANS["C14"]["evidence"]["transitions"] + ["api_transitions"], "nontrivial": PLANS["C14"]["evidence"]["nontrivial"]}
